@@ -33,23 +33,23 @@ Qed.
    earlier in the same hook — except the audited sites below.
 
    AUDIT (part of the trusted base; see DESIGN.md C07):
-   - blockBeginner/govern       : app.Context.govern.GetFeeOption() is read before ManageVotes
-                                   re-aims govern; it reads through whatever state the last ABCI
-                                   call left (the check state after any CheckTx).  Reads only.
    - blockBeginner/feePool      : SetupOpt(feeOpt) — sets an in-memory field, no state access.
    - blockBeginner/stateDB      : SetBlockHash — in-memory field of the EVM adapter.
-   - blockBeginner/proposalMaster: AddInternalTX iterates proposals through the current pointer
-                                   and only fills the node-local internal transaction queue;
-                                   the queued transactions are re-validated on the deliver
-                                   state at EndBlock.
    - txDeliverer/stateDB        : Prepare/Finality — in-memory tx hash / log bookkeeping.
    - blockEnder/ethTrackers, witnesses : passed to doEthTransitions, which re-aims the tracker
                                    store itself (ts = ts.WithState(deliver)); witnesses is read-only
                                    and its records only change at InitChain.
-   - blockEnder/stateDB         : GetBloomEvent / Reset — in-memory. *)
+   - blockEnder/stateDB         : GetBloomEvent / Reset — in-memory.
+   Two earlier entries of this audit were WRONG and are gone: blockBeginner read the fee option
+   (govern.GetFeeOption) and built the internal finalize/expire queue (AddInternalTX over
+   proposalMaster) through whatever state the last ABCI call had left — "reads only", but what was read
+   is installed as the fee option of the block / decides which proposals are finalised in it.  A CheckTx
+   of a PROPOSAL_FINALIZE for a passed configuration proposal (anybody may send it) applies the update to
+   the CHECK state, and the next BeginBlock then took the new minimal fee from there: a payment that the
+   block without that CheckTx executes was refused.  Repaired in /repo (both uses re-aimed); found when a
+   directed variant submitted every finalize/expire transaction at every call boundary. *)
 Definition audited : list (string * string) :=
-  [("blockBeginner", "govern"); ("blockBeginner", "feePool"); ("blockBeginner", "stateDB");
-   ("blockBeginner", "proposalMaster"); ("txDeliverer", "stateDB");
+  [("blockBeginner", "feePool"); ("blockBeginner", "stateDB"); ("txDeliverer", "stateDB");
    ("blockEnder", "ethTrackers"); ("blockEnder", "witnesses"); ("blockEnder", "stateDB")].
 
 Theorem C07_fact_aiming : unaimed_uses audited hook_uses = [].
